@@ -76,3 +76,42 @@ def scale(ty, v, f, eps=True):
         fs = ty.variants[0][1]
         return ('rec', [scale(t, x, f, eps=e) for (n, e, t), x in zip(fs, v[1])])
     return v
+
+
+def empty_ser(ty):
+    """every value of ty is written as zero bytes (a deep-copy structure of zero-sized zero-copy fields, a zero-sized
+    zero-copy type of alignment 1): a vector of such items can be longer than the stream that holds it"""
+    if isinstance(ty, Adt) and ty.d.copy != 'zero' and not ty.d.is_enum:
+        return all(empty_ser(t) for (n, e, t) in ty.variants[0][1])
+    if ty.is_zc():
+        try:
+            return ty.size() == 0 and ty.align() == 1
+        except Exception:
+            return False
+    return False
+
+
+def inflate(ty, v, n):
+    """make every rebuilt sequence of empty-serialized items n items long"""
+    if isinstance(ty, Seq) and not ty.t.is_zc():
+        if empty_ser(ty.t) and v[1]:
+            return ('seq', [v[1][0]] * n)
+        return ('seq', [inflate(ty.t, x, n) for x in v[1]])
+    if isinstance(ty, Array) and not ty.t.is_zc():
+        return ('seq', [inflate(ty.t, x, n) for x in v[1]])
+    if isinstance(ty, Sum):
+        if ty.kind == 'cf':
+            return ('var', v[1], [inflate(ty.ts[v[1]], v[2][0], n)])
+        if v[1] == 0: return v
+        return ('var', v[1], [inflate(ty.ts[0], v[2][0], n)])
+    if isinstance(ty, Adt) and ty.d.copy != 'zero':
+        if ty.d.is_enum:
+            fs = ty.variants[v[1]][1]
+            return ('var', v[1], [inflate(t, x, n) if e else x for (n_, e, t), x in zip(fs, v[2])])
+        fs = ty.variants[0][1]
+        return ('rec', [inflate(t, x, n) if e else x for (n_, e, t), x in zip(fs, v[1])])
+    return v
+
+
+def has_empty_items(ty):
+    return any(isinstance(x, Seq) and not x.t.is_zc() and empty_ser(x.t) for x in ty.walk())
